@@ -178,10 +178,10 @@ mut("C04-statusbyte-unguarded", "C04", [(SER3, """        if (self.port is None)
             self.port.write('QG\\r'.encode('ascii'))""")])
 mut("C04-penlower-unguarded", "C04", [(MOT3, """        if (self.port is None) or (self.err is not None):
             return
-        if pin:
+        if pin is not None:
             str_output = f'SP,0,{pen_delay},{pin}'""", """        if self.port is None:
             return
-        if pin:
+        if pin is not None:
             str_output = f'SP,0,{pen_delay},{pin}'""")],
     "guard delegated to command(): still blocked, so this one is EQUIVALENT under C04 "
     "(command() re-checks err) - expected to be missed")
